@@ -28,7 +28,28 @@ def _heap(n, N, ops=None):
                 timeout=900, mem_gb=4,
                 desc="(a) min-heap inductive step: ANY valid heap of %d elements (capacity %d), fully symbolic deadlines; push/pop/erase(any victim)/adjust(any victim, any new deadline): invariant, membership, top=min" % (n, N)))
 
+# Timers of these obligations are never common-timeout timers (usec < 10^6 has no magic bits), but symex
+# cannot fold `(tv_usec & 0xf0000000) == 0x50000000` on a symbolic tv_usec and would walk the common-timeout
+# branches with a NULL queue table.  The cut turns the first call on that branch into assert(false);assume(false):
+# "never reached" is proved by the solver, and the infeasible path is pruned.
+_NO_COMMON = [["--remove-function-body", "get_common_timeout_list"],
+              ["--generate-function-body", "get_common_timeout_list", "--generate-function-body-options", "assert-false-assume-false"]]
+_HEAPLOOPS = lambda k: ["min_heap_shift_down_.0:%d" % k, "min_heap_shift_up_.0:%d" % k, "min_heap_shift_up_unconditional_.0:%d" % k]
+
+def _tm(name, entry, desc, defines=(), unwind=6, heap=3, **kw):
+    d = dict(name=name, harness="C01_timers.c", entry=entry, sources=["evmap.c"], defines=list(defines), unwind=unwind,
+             unwindset=_HEAPLOOPS(heap), instrument=_NO_COMMON, timeout=900, mem_gb=3, desc=desc)
+    d.update(kw)
+    return _fin(d)
+
 def obligations(tier):
-    N = 5 if tier == "quick" else 7
+    N = 6 if tier == "quick" else 7
     obs = [_heap(n, N) for n in range(0, N + 1)]
+    obs.append(_tm("deadline", "harness_deadline", "(b) event_add relative/absolute, persistent or not, now/timeout any sec<2^31, usec<10^6: deadline == now+tv normalised, pending in heap, event_pending reports it on the wall clock, wait == max(0,deadline-now)"))
+    for n in range(0, 4 if tier == "quick" else 5):
+        obs.append(_tm("expiry_n%d" % n, "harness_expiry", "(c) timeout_next+timeout_process from ANY valid heap of %d timers, any now: activated == {deadline<=now}, each once, order non-decreasing, rest pending, heap valid, wait exact" % n,
+                       defines=["C01_NH=%d" % n], unwind=n + 3, mem_gb=4 if n >= 3 else 2))
+    for bt in (1, 0):
+        obs.append(_tm("persist_%s" % ("timeout" if bt else "other"), "harness_persist", "(d) event_persist_closure re-arm: prev deadline, interval, now symbolic; activation by %s" % ("EV_TIMEOUT" if bt else "another result while the timer is pending"),
+                       defines=["C01_BY_TIMEOUT=%d" % bt]))
     return obs
